@@ -7,8 +7,9 @@ from . import core, kunit
 
 OUT = [
     "operands or results with |v| >= 2^100 (model bound; 2^127 hard cut)",
-    "symbolic x symbolic multiplication/division: the second operand of mul/div/rem/pow ranges over constant tables "
-    "(-7..7, +-2^8..2^32, 10, 2^62, -2^63), the first is fully symbolic",
+    "symbolic x symbolic multiplication/division: the second operand of mul/div/rem ranges over constant tables "
+    "(quick: +-1, +-2, +-2^k for k in 8..63; thorough adds -7..10 and 1000003), the first is fully symbolic; with the "
+    "non-power-of-two divisors (thorough) Short dividends are restricted to 32 bits (CBMC's 64-bit divider does not finish)",
     "text conversion (to_str/from_str_radix/format) and Long/Long true division (model not faithful); num-bigint's own limb code",
     "factorial/binomial/multinomial/digits natives beyond what the K-crate tier reaches",
 ]
@@ -16,7 +17,7 @@ OUT = [
 
 def harness_names(src, prefix):
     names = re.findall(r"#\[kani::proof\](?:\s*#\[[^\]]*\])*\s*fn (%s\w*)" % prefix, src)
-    names += re.findall(r"table_harness!\((%s\w*)," % prefix, src)
+    names += re.findall(r"table_harness!\((%s\w*)," % prefix, src)  # also matches narrow_table_harness!
     return sorted(set(names))
 
 
@@ -79,8 +80,8 @@ def renderers():
     return {
         "c14_add": binop("+", lambda a, b: a + b),
         "c14_sub": binop("-", lambda a, b: a - b),
-        **{"c14_mul_" + t: mulr for t in ("small", "mid", "pow2", "edge")},
-        **{"c14_%s_%s" % (o, t): divrem for o in ("rem_ref", "rem_owned", "div_floor") for t in ("small", "mid", "pow2", "edge")},
+        **{"c14_mul_" + t: mulr for t in ("unit", "small", "mid", "pow2", "pow2b", "odd")},
+        **{"c14_%s_%s" % (o, t): divrem for o in ("rem_ref", "rem_owned", "div_floor") for t in ("unit", "small", "mid", "pow2", "pow2b", "odd")},
         "c14_small_dividend_rem_ref": divrem, "c14_small_dividend_rem_owned": divrem, "c14_small_dividend_div_floor": divrem,
         "c14_pow_small": binop("**", lambda a, b: a ** b),
     }
@@ -90,7 +91,7 @@ def run(chk):
     src = open(os.path.join(core.VERIF, "kani", "unit", "src", "h", "c14.rs")).read()
     names = harness_names(src, "c14_")
     if chk.tier == "quick":
-        names = [n for n in names if not (n.endswith("_mid") or n.endswith("_edge"))]
+        names = [n for n in names if not re.search(r"_(mid|small|odd)$", n)]
     if chk.only:
         names = [n for n in names if any(o in n for o in chk.only)]
     crate = kunit.prepare(chk)
